@@ -103,6 +103,7 @@ type ReplayOutcome struct {
 	Sig        string `json:"sig"`
 	Detail     string `json:"detail"`
 	SameTrace  bool   `json:"same_trace"`
+	Attempts   int    `json:"attempts"`
 }
 
 func envInt(name string, def int64) int64 {
@@ -304,11 +305,22 @@ func Main(t *testing.T, w World) {
 		if err := json.Unmarshal(b, &rf); err != nil {
 			t.Fatalf("replay file: %v", err)
 		}
-		r := runOnce(t, w, newReplayTape(rf.Tape))
+		// A replay is one execution of the recorded tape. Where a world has residual nondeterminism (wake
+		// order inside goroutines the scheduler does not own) a single attempt may take another path; the
+		// replay is then repeated a few times and the number of attempts is reported.
+		var r RunResult
+		attempts := 0
+		for tries := int(envInt("VERIF_REPLAY_TRIES", 5)); attempts < tries; {
+			attempts++
+			r = runOnce(t, w, newReplayTape(rf.Tape))
+			if r.HarnessErr != "" || (r.Viol != nil && r.Viol.Clause == rf.Clause && r.Viol.Sig == rf.Sig) {
+				break
+			}
+		}
 		for _, n := range r.Notes {
 			fmt.Println("replay-note:", n)
 		}
-		ro := &ReplayOutcome{File: rp}
+		ro := &ReplayOutcome{File: rp, Attempts: attempts}
 		if r.HarnessErr != "" {
 			out.HarnessErrs = append(out.HarnessErrs, r.HarnessErr)
 		}
@@ -416,6 +428,9 @@ func Main(t *testing.T, w World) {
 		b, _ := json.MarshalIndent(rf, "", " ")
 		_ = os.MkdirAll(replayDir, 0o755)
 		_ = os.WriteFile(path, b, 0o644)
+		if p0 := filepath.Join(replayDir, fmt.Sprintf("%s-%d-%d-%016x.json", w.Prop, seed, run, r.TraceHash)); p0 != path {
+			_ = os.Remove(p0) // the unminimised early copy is superseded
+		}
 		vi := seen[key]
 		cnt := out.Violations[vi].Count
 		out.Violations[vi] = ViolOut{Clause: use.Viol.Clause, Sig: use.Viol.Sig, Detail: use.Viol.Detail, Replay: path, Run: run, Count: cnt}
